@@ -72,10 +72,15 @@ CLAIMS.update({
  'C08': ("proof", "Proof, partial. Proved (all w, all values): the allocate/release pair around an array literal restores ap, the call/"
          "end_call pair restores fp, a caught defeat re-enters the handler with the try's environment and continuation. The whole-program "
          "statement is validated: the minimal stack size of scope-stress programs must not grow with the iteration count (a leak does), the "
-         "Lean monitor checks that ap is identical at every arrival at a loop head within an activation, and behaviour equals the reference.",
+         "Lean monitor checks that ap is identical at every arrival at a loop head within an activation, and behaviour equals the reference. "
+         "For the verified core (int locals, blocks, loops, calls, recursion; no arrays) the whole statement is PROVED: "
+         "core_scope_exit_restores_frame - however a statement list is left (fall-through, return, return e; any iteration count, any "
+         "call depth) fp, ap and all memory from fp up are what they were on entry; model tied by the exact core correspondence.",
          "machine-checked proof (Lean 4) of the release pairs + monitored execution and minimal-stack search", "6 C08"),
  'C18': ("proof", "Proof, partial. Proved: committed step and trace of either machine are unique (a run is a function of program and input); "
-         "the stack guard is monotone in the free space. Observed, not proved (runtime behaviour outside any model): byte-identical compiler "
+         "the stack guard is monotone in the free space; for the verified core (functions, recursion, arguments) a run that completes at "
+         "stack size S performs exactly the same events at every S' >= S (core_larger_stack_same, every program, input, w, build mode). "
+         "Observed, not proved (runtime behaviour outside any model): byte-identical compiler "
          "output across fresh interpreter processes and hash seeds. Validated: behaviour unchanged above the minimal stack size, output "
          "differing only in the .zero directive, agreement across word sizes for value-bounded programs, --lint rejects or changes nothing.",
          "machine-checked proof (Lean 4) of determinism + cross-configuration differential", "6 C18"),
@@ -112,8 +117,10 @@ CLAIMS.update({
  'C16': ("proof", "Proof of (a) and (c): for every well-formed block, exit modes lacking NONE imply the block cannot complete normally, and "
          "whatever follows such a prefix is unreachable - against an abstract control-flow semantics in which every condition may go either "
          "way (induction over derivations, all programs). The analysis model is tied to blocks.py by recomputing the mode of every block "
-         "of every accepted function. (b) missing-return rejection is part of the tc suite; (d) the machine-level statement is validated "
-         "by the fall-through monitor.", "machine-checked proof (Lean 4) of the exit-mode analysis + mode correspondence + VM monitor", "6 C16"),
+         "of every accepted function. (b) missing-return rejection is part of the tc suite; (d) the machine-level statement is PROVED for "
+         "the verified core (functions laid out one after another: core_entry_never_falls_off, core_activation_returns_to_caller, and "
+         "C01.core_semantic_preservation, whose trace equality excludes running into the next function) and validated beyond it by the "
+         "fall-through monitor.", "machine-checked proof (Lean 4) of the exit-mode analysis + mode correspondence + VM monitor", "6 C16"),
 })
 PENDING = {}
 def main():
